@@ -85,6 +85,12 @@ def run_scenario(spec):
     import cascade.scheduler.graph as sgraph
     from cascade.low.core import DatasetId
     hosts = spec["hosts"]            # [{id, workers, port, gpus}]
+    for h_ in hosts:   # leftovers of an earlier, killed scenario with the same host id would collide on segment names
+        for s_ in glob.glob(f"/dev/shm/sCasc{h_['id']}*"):
+            try:
+                os.unlink(s_)
+            except OSError:
+                pass
     caddr = f"tcp://localhost:{spec['cport']}"
     ctx = get_context("fork")
     procs = {}
@@ -137,7 +143,8 @@ def run_scenario(spec):
         ev = read_log(evlog)
         if kill and not killed:
             ready = [e for e in ev if e[1] == "executor-ready"]
-            trigger = len(ready) == len(hosts) and (kill["at"] == "idle" or any(e[1] == "body-enter" for e in ev))
+            # "idle" = the cluster is up and registered (the Bridge exists), nothing has been dispatched yet or ever will be on that host
+            trigger = len(ready) == len(hosts) and "b" in bridge_box and (kill["at"] == "idle" or any(e[1] == "body-enter" for e in ev))
             if trigger:
                 try:
                     pids = json.load(open(os.path.join(tmp, f"pids-{hosts[kill['host']]['id']}.json")))
